@@ -1,5 +1,5 @@
 (* Evaluation of the C14 model on harness-written cases (correspondence check). *)
-From Coq Require Import List NArith ZArith String Bool.
+From Coq Require Import List NArith ZArith String Bool Lia.
 From V.Base Require Import Hex BigEndian.
 From V.C14 Require Import Model Bytes Proofs Text.
 Import ListNotations.
@@ -304,3 +304,10 @@ Qed.
 (* the pairing of the exponent model: an identity argument gives the identity of GT *)
 Lemma e_exp_identity r a : e_exp r a 0 = 0 /\ e_exp r 0 a = 0.
 Proof. unfold e_exp. rewrite Z.mul_0_r, Z.mul_0_l. split; apply Zmod_0_l. Qed.
+(* ... and negating an argument inverts the pairing value: e(P, -Q) = e(P, Q)^-1 (additively: the opposite) *)
+Lemma e_exp_neg r a b : 0 < r -> (e_exp r a b + e_exp r a (- b)) mod r = 0 /\ (e_exp r a b + e_exp r (- a) b) mod r = 0.
+Proof.
+  intro Hr. unfold e_exp. split; rewrite <- Z.add_mod by lia.
+  - replace (a * b + a * - b) with 0 by ring. apply Zmod_0_l.
+  - replace (a * b + - a * b) with 0 by ring. apply Zmod_0_l.
+Qed.
